@@ -169,7 +169,7 @@ def close_tac(ident, q, names):
         return 'by map_tac [%s]' % ', '.join(names)
     rs = ' '.join('r%d' % k for k in range(len(facts)))
     bases = ', '.join('%s_rad%d' % (ident, k) for k in range(len(rad_bases(q))))
-    return ('by\n    obtain ⟨%s⟩ := R\n    simp [%s, %s] at %s\n    simp [%s, %s] <;> (try ring_nf at %s ⊢) <;> grind'
+    return ('by\n    obtain ⟨%s⟩ := R\n    simp [%s, %s] at %s\n    simp [%s, %s]\n    first | done | (ring_nf at %s ⊢; first | done | grind)'
             % (', '.join('r%d' % k for k in range(len(facts))), bases, SIMPSET, rs, ', '.join(names), SIMPSET, rs))
 
 
@@ -280,6 +280,8 @@ def gen_block(ident, name, ld, pd, q):
     for i in range(pd):
         for j in range(ld):
             hd = '' if cX else ' (hdX : NonDeg S (PD.sdiff %s %s))' % (coords[j], X(i))
+            if q.get('rad'):
+                P('set_option maxHeartbeats 2000000 in')
             P('theorem %s_jac_%d%d (S : DRing K) (T : FnTable S)%s%s%s%s :' % (ident, i, j, hR, hX, hJ, hd))
             P('    den S %s 0 0 = S.D %s (den S %s 0 0) := by' % (J(i, j), coords[j], X(i)))
             P('  have hx : NonDeg S %s := %s' % (X(i), '(polyLike_nonDeg S _ (by decide))' if cX else '(by %s; tauto)' % unfold))
@@ -306,6 +308,8 @@ def gen_block(ident, name, ld, pd, q):
     for i in range(ld):
         for j in range(ld):
             gram = '.add [%s]' % ', '.join('.mul [%s, %s]' % (J(k, i), J(k, j)) for k in range(pd))
+            if q.get('rad'):
+                P('set_option maxHeartbeats 2000000 in')
             P('theorem %s_gram_%d%d (S : DRing K)%s%s%s :' % (ident, i, j, hR, hJ, hG))
             P('    den S %s 0 0 = %s := by' % (G(i, j), ' + '.join('den S %s 0 0 * den S %s 0 0' % (J(k, i), J(k, j)) for k in range(pd))))
             P('  have ht : NonDeg S (.add [%s, %s]) := by' % (G(i, j), E_neg('(%s)' % gram)))
@@ -329,24 +333,44 @@ def gen_block(ident, name, ld, pd, q):
     P('')
     names.append('metric_is_gram_%s' % ident)
     # ---- the stored determinant is the determinant of the stored metric
-    P('/-- **the stored metric determinant is det(JᵀJ)** (the determinant of the stored metric) -/')
-    P('theorem metric_det_is_det_%s (S : DRing K)%s%s%s :' % (ident, hR, hG, hD))
-    P('    den S %s_detG 0 0 = %s := by' % (ident, det_value(ident, ld)))
-    P('  have ht : NonDeg S (.add [%s_detG, %s]) := by' % (ident, E_neg(det_term(ident, ld))))
-    if cG and cD:
-        P('    exact polyLike_nonDeg S _ (by decide)')
+    if q.get('rad'):
+        # measured: > 5 min with `grind` (the stored determinant is a quotient with square roots); not proved
+        P('/- NOT PROVED (full statement; covered by the oracle only):')
+        P('   theorem metric_det_is_det_%s (S : DRing K) (R : %s_Rad S) (hG : NonDeg S %s_G) (hD : NonDeg S %s_detG) :' % (ident, ident, ident, ident))
+        P('       den S %s_detG 0 0 = %s -/' % (ident, det_value(ident, ld)))
+        P('')
+        notes.append('metric_det_is_det_%s not proved' % ident)
     else:
-        P('    have hg : NonDeg S %s_G := %s' % (ident, nd('hG', '', cG)))
-        P('    have hd : NonDeg S %s_detG := %s' % (ident, nd('hD', '', cD)))
-        P('    %s; simp [NonDeg]; tauto' % unfold)
-    P('  have h := eq_of_frac_zero S _ _ ht 0 0 (%s)' % close_tac(ident, q, ['%s_detG' % ident] + [G(i, j) for i in range(ld) for j in range(ld)]))
-    P('  try simp [den, denSum, denProd] at h')
-    P('  try simp [%s_G, den, denNth, detK]' % ident)
-    P('  linear_combination h')
-    P('')
-    names.append('metric_det_is_det_%s' % ident)
+        if q.get('rad'):
+            P('set_option maxHeartbeats 2000000 in')
+        P('/-- **the stored metric determinant is det(JᵀJ)** (the determinant of the stored metric) -/')
+        P('theorem metric_det_is_det_%s (S : DRing K)%s%s%s :' % (ident, hR, hG, hD))
+        P('    den S %s_detG 0 0 = %s := by' % (ident, det_value(ident, ld)))
+        P('  have ht : NonDeg S (.add [%s_detG, %s]) := by' % (ident, E_neg(det_term(ident, ld))))
+        if cG and cD:
+            P('    exact polyLike_nonDeg S _ (by decide)')
+        else:
+            P('    have hg : NonDeg S %s_G := %s' % (ident, nd('hG', '', cG)))
+            P('    have hd : NonDeg S %s_detG := %s' % (ident, nd('hD', '', cD)))
+            P('    %s; simp [NonDeg]; tauto' % unfold)
+        P('  have h := eq_of_frac_zero S _ _ ht 0 0 (%s)' % close_tac(ident, q, ['%s_detG' % ident] + [G(i, j) for i in range(ld) for j in range(ld)]))
+        P('  try simp [den, denSum, denProd] at h')
+        P('  try simp [%s_G, den, denNth, detK]' % ident)
+        P('  linear_combination h')
+        P('')
+        names.append('metric_det_is_det_%s' % ident)
     # ---- the stored inverse is the inverse
-    if square:
+    if square and q.get('rad'):
+        # measured: with rational powers (Czarny) the cross-multiplied identity of an inverse entry has thousands of
+        # monomials and needs the square-root facts; `grind` does not close it within minutes.  Stated, not proved;
+        # the oracle of harness/props/c16.py covers it (sympy + 50-digit evaluation).
+        P('/- NOT PROVED (full statement; covered by the oracle only):')
+        P('   theorem inv_is_inverse_%s (S : DRing K) (R : %s_Rad S) (hJ : NonDeg S %s_J) (hI : NonDeg S %s_Jinv)' % (ident, ident, ident, ident))
+        P('       (i j : Nat) (hi : i < %d) (hj : j < %d) :' % (ld, ld))
+        P('       DRing.sumN %d (fun k => den S %s_J i k * den S %s_Jinv k j) = if i = j then 1 else 0 -/' % (ld, ident, ident))
+        P('')
+        notes.append('inv_is_inverse_%s not proved' % ident)
+    elif square:
         n = ld
         for i in range(n):
             for j in range(n):
@@ -373,13 +397,11 @@ def gen_block(ident, name, ld, pd, q):
                 P('    | exact %s_inv_%d%d S%s%s hI' % (ident, i, j, aR, '' if cJ else ' hJ'))
         P('')
         names.append('inv_is_inverse_%s' % ident)
-    if not cX:
-        notes.append('X, J, dX')
-    return '\n'.join(L) + '\n', names
+    return '\n'.join(L) + '\n', names, notes
 
 
 def gen_module(ident, name, ld, pd, q):
-    text, names = gen_block(ident, name, ld, pd, q)
+    text, names, notes = gen_block(ident, name, ld, pd, q)
     head = ['/- GENERATED by harness/translate/mappings.py — do not edit.  Theorems about the stored symbolic quantities of',
             '   %s (ldim %d, pdim %d) as found in Gen/Mappings.lean: in every differential ring `S` (parameters and' % (name, ld, pd),
             '   sin/cos/… of the coordinates are arbitrary ring elements), hence for all parameter values and points. -/',
@@ -392,4 +414,4 @@ def gen_module(ident, name, ld, pd, q):
             'set_option linter.unusedSimpArgs false',
             'set_option linter.unusedVariables false',
             '']
-    return '\n'.join(head) + '\n' + rad_structure(ident, q) + '\n' + text + '\nend Sympde.Gen.Map\n', names
+    return '\n'.join(head) + '\n' + rad_structure(ident, q) + '\n' + text + '\nend Sympde.Gen.Map\n', names, notes
